@@ -113,6 +113,43 @@ def run(ctx):
     for k, v in ps.get("skipped", {}).items():
         skipped["puppet:" + k] = v
 
+    # ---- boundary request identifiers on every responder / steerable initiator path
+    bv, bs = K.run_boundary(ctx)
+    b_out = {}
+    b_ref = []
+    refused = []
+    for r in bv:
+        site = "%s:%s" % (r["side"], r["kind"])
+        b_out[r["outcome"]] = b_out.get(r["outcome"], 0) + 1
+        if r["outcome"] != "ack":
+            refused.append("%s rid=%s" % (site, r["ridclass"]))
+            continue
+        if r.get("derives") != 1:
+            ctx.finding("KeyAgreement:boundary-rid:%s:rid=%s:derivations" % (site, r["ridclass"]),
+                        "%s with request id %s (%s): %s key derivations for one open" % (site, r["rid"], r["ridclass"], r.get("derives")), r)
+            continue
+        if not r.get("args_ok"):
+            ctx.finding("KeyAgreement:boundary-rid:%s:rid=%s:arguments" % (site, r["ridclass"]),
+                        "%s with request id %s (%s; hop stream id %s): the key is derived from request id %s / keys other than those "
+                        "on the wire" % (site, r["rid"], r["ridclass"], r.get("last_hop_sid", r.get("first_hop_sid")), r.get("derive_rid")), r)
+        if r.get("reply_ok") is False:
+            ctx.finding("KeyAgreement:boundary-rid:%s:rid=%s:unusable" % (site, r["ridclass"]),
+                        "%s with request id %s (%s): data sealed under the key an honest peer derives is not accepted / the answer "
+                        "does not open under it" % (site, r["rid"], r["ridclass"]), r)
+        b_ref.append((site, r["ridclass"], bool(r.get("ref_ok")), r))
+    if any(ok for _, _, ok, _ in b_ref):
+        for site, rc, ok, r in b_ref:
+            if not ok:
+                ctx.finding("KeyAgreement:boundary-rid:%s:rid=%s:key" % (site, rc),
+                            "%s with request id %s (%s): the derived key differs from the key every other site / request id derives from "
+                            "the same inputs" % (site, r["rid"], rc), r)
+    if len(refused) == len(bv):
+        raise vf.Infra("boundary harness: every open was refused")
+    if refused:
+        notes.append("opens refused for a reason unrelated to keys in the boundary run: %s" % refused[:8])
+    for k, v in bs.get("skipped", {}).items():
+        skipped["boundary:" + k] = v
+
     # ---- E4 on the crypto package
     cl, tr, rn = K.run_vectors(ctx, m)
     ecdh = {v["class"]: v for v in m["vece"]}
@@ -163,8 +200,10 @@ def run(ctx):
                  tunnels_by_kind=kinds_seen, derive_sites=sites, distinct_keys=T["summary"]["distinct_keys"],
                  duplicate_keys=T["summary"]["duplicate_keys"],
                  puppet_vectors=len(pv), puppet_outcomes=outcomes, skipped=skipped,
+                 boundary_rid_vectors=len(bv), boundary_rid_outcomes=b_out,
+                 boundary_rid_equal_to_hop_stream_id=sum(1 for r in bv if r.get("rid_eq_hop_sid")),
                  ecdh_classes=len(cl), ecdh_private_keys_per_class=next(iter(cl.values()))["n"],
                  kdf_symbolic_triples=tr["n"], kdf_random_tuples=rn["n"],
                  notes=notes,
-                 samples=samples + [{"puppet_vector": pv[0]}, {"puppet_vector": pv[-1]},
+                 samples=samples + [{"puppet_vector": pv[0]}, {"puppet_vector": pv[-1]}, {"boundary_vector": {k: v for k, v in bv[0].items() if k != "k"}},
                                     {"ecdh_class": cl["lo8a"]}, {"tlc_vec": m["vec"][0]}])
